@@ -247,8 +247,8 @@ def set_center(data, origin, crop='maintain_size', axes=(0, 1), order=3,
     subpixel = np.zeros(2)
     origin_ = [None, None]
     for a in [0, 1]:
-        if origin[a] is None:
-            axes.discard(a)
+        if origin[a] is None or a not in axes:
+            axes.discard(a)  # (coordinates of unused axes are ignored)
         else:
             # to absolute coordinates
             if origin[a] < 0:
